@@ -132,6 +132,8 @@ func (p *Program) LinOf(v ssa.Value, aliases []Alias) Lin {
 				parts[i] = p.LinOf(a, aliases).String()
 			}
 
+			sort.Strings(parts) // min/max are commutative
+
 			return Lin{Coef: map[string]int64{b.Name() + "(" + strings.Join(parts, ",") + ")": 1}}
 		}
 	}
